@@ -1619,11 +1619,15 @@ impl<'bump> String<'bump> {
         let len = self.len();
         let start = match range.start_bound() {
             Included(&n) => n,
-            Excluded(&n) => n + 1,
+            Excluded(&n) => n
+                .checked_add(1)
+                .unwrap_or_else(|| panic!("attempted to index str from after maximum usize")),
             Unbounded => 0,
         };
         let end = match range.end_bound() {
-            Included(&n) => n + 1,
+            Included(&n) => n
+                .checked_add(1)
+                .unwrap_or_else(|| panic!("attempted to index str up to maximum usize")),
             Excluded(&n) => n,
             Unbounded => len,
         };
